@@ -46,6 +46,9 @@ def Bus.peerInfo (b : Bus) (c : Option ConnId) : PeerInfo :=
 structure Tx where
   bus : Bus
   out : List Out := []
+  /-- copies for monitors (`bus_transaction_capture`): kept apart from `out`, which nothing but the
+      ordinary deliveries ever touch — what other clients observe cannot depend on monitors -/
+  mon : List Out := []
   deriving Inhabited
 
 def Tx.emit (t : Tx) (o : Out) : Tx := { t with out := t.out ++ [o] }
@@ -69,6 +72,26 @@ def matchCtx (b : Bus) (sender : Option ConnId) (addressed : Option ConnId) (m :
 def msgView (m : Msg) : MsgView :=
   { mtype := m.mtype, path := m.path, iface := m.iface, member := m.member, error := m.errName,
     dest := m.dest, sender := m.sender, isReply := m.replySerial != 0, nFds := m.nFds }
+
+/-! ### monitors -/
+
+/-- the connections `bus_transaction_capture` copies a message to: nobody while the monitor list is
+    empty; otherwise every connection with a monitor rule matching it, except the addressed recipient
+    (the rules are installed a moment before the connection joins the list, see `beMonitor`) -/
+def captureTargets (b : Bus) (sender addressed : Option ConnId) (m : Msg) : List ConnId :=
+  if !b.conns.any (·.monitor) then []
+  else (b.conns.filter fun c => some c.id != addressed &&
+          c.monitorRules.any (fun r => ruleMatches r (matchCtx b sender addressed m))).map (·.id)
+
+def emitTo (m : Msg) (t : Tx) (r : ConnId) : Tx := { t with mon := t.mon ++ [.deliver r m] }
+
+/-- `bus_transaction_capture`: no policy check, no state change -/
+def capture (t : Tx) (sender addressed : Option ConnId) (m : Msg) : Tx :=
+  (captureTargets t.bus sender addressed m).foldl (emitTo m) t
+
+/-- `bus_transaction_capture_error_reply`: what monitors are shown when a delivery is refused -/
+def captureError (t : Tx) (addressed : Option ConnId) (inReplyTo : Msg) (e : Err) : Tx :=
+  capture t none addressed ((mkError inReplyTo e).setSender BUS_NAME)
 
 /-! ### `bus_context_check_security_policy` -/
 
@@ -163,9 +186,10 @@ def stampDriver (b : Bus) (to : ConnId) (m : Msg) : Msg :=
 /-- `bus_transaction_send_from_driver`: stamp, address, gate, queue -/
 def sendFromDriver (t : Tx) (to : ConnId) (m : Msg) : Tx :=
   let m := stampDriver t.bus to m
+  let t := capture t none (some to) m
   let (p, err) := checkPolicy t.bus none (some to) (some to) m
   match err with
-  | some _ => t.setPending p
+  | some e => captureError (t.setPending p) (some to) m e
   | none => (t.setPending p).emit (.deliver to m)
 
 def sendError (t : Tx) (to : ConnId) (inReplyTo : Msg) (e : Err) : Tx :=
@@ -182,9 +206,9 @@ def canFdOf (b : Bus) (c : ConnId) : Bool := match b.conn? c with | some x => x.
 def sendOne (t : Tx) (sender addressed : Option ConnId) (to : ConnId) (m : Msg) : Tx :=
   let (p, err) := checkPolicy t.bus sender addressed (some to) m
   match err with
-  | some _ => t.setPending p
+  | some e => captureError (t.setPending p) sender m e
   | none =>
-    if m.nFds > 0 && !canFdOf t.bus to then t.setPending p
+    if m.nFds > 0 && !canFdOf t.bus to then captureError (t.setPending p) sender m .notSupported
     else (t.setPending p).emit (.deliver to m)
 
 /-- `bus_dispatch_matches`; an error means the addressed delivery was refused and nothing else
@@ -214,7 +238,7 @@ def ownerChangedMsg (name old new : Bytes) : Msg :=
   (mkSignal ((/- "NameOwnerChanged" -/ [0x4e,0x61,0x6d,0x65,0x4f,0x77,0x6e,0x65,0x72,0x43,0x68,0x61,0x6e,0x67,0x65,0x64] : Bytes)) [tStr, tStr, tStr] [sStr name, sStr old, sStr new]).setSender BUS_NAME
 
 def sigOwnerChanged (t : Tx) (name old new : Bytes) : Tx :=
-  (dispatchMatches t none none (ownerChangedMsg name old new)).1
+  (dispatchMatches (capture t none none (ownerChangedMsg name old new)) none none (ownerChangedMsg name old new)).1
 
 def sigAcquired (t : Tx) (to : ConnId) (name : Bytes) : Tx :=
   sendFromDriver t to (mkSignal ((/- "NameAcquired" -/ [0x4e,0x61,0x6d,0x65,0x41,0x63,0x71,0x75,0x69,0x72,0x65,0x64] : Bytes)) [tStr] [sStr name])
@@ -316,6 +340,58 @@ def activate (b : Bus) (c : ConnId) (nm : Bytes) : Bus :=
   { (b.updConn c fun x => { x with name := some nm, policy := b.policy.clientRules x.uid x.gids false })
     with minted := nm :: b.minted }
 
+/-! ### disconnect -/
+
+def involves (c : ConnId) (p : Pending) : Bool := p.caller == c || p.callee == c
+
+/-- a stand-in for the call a pending entry remembers (only its serial matters to the error reply) -/
+def fakeCall (serial : Nat) : Msg :=
+  { endian := .little, mtype := 1, flags := 0, version := 1, serial := serial, fields := [], bodyTypes := [], body := [] }
+
+def noReplyTo (c : ConnId) (t : Tx) (p : Pending) : Tx :=
+  if p.callee == c && p.caller != c then sendError t p.caller (fakeCall p.serial) .noReply else t
+
+/-- `bus_connection_drop_pending_replies`: callers waiting on the vanished callee get NoReply;
+    entries where it was the caller are forgotten -/
+def dropPending (t : Tx) (c : ConnId) : Tx :=
+  (t.bus.pending.filter (involves c)).foldl (noReplyTo c)
+    (t.setPending (t.bus.pending.filter fun p => !involves c p))
+
+/-- `bus_matchmaker_disconnected` runs only when the vanishing connection has rules of its own
+    (a monitor's filter rules count);
+    it also drops other connections' rules that name the vanishing unique name as sender or
+    destination (the name is never reused, so they could never match again) -/
+def gcRules (b : Bus) (x : Conn) : Bus :=
+  if x.rules.isEmpty && x.monitorRules.isEmpty then b else
+    match x.name with
+    | none => b
+    | some nm => { b with conns := b.conns.map fun y =>
+        if y.id == x.id then y else { y with rules := y.rules.filter fun r => !(r.sender == some nm || r.dest == some nm) } }
+
+def clearRules (b : Bus) (c : ConnId) : Bus := b.updConn c fun x => { x with rules := [], monitorRules := [] }
+
+def releaseAll (t : Tx) (c : ConnId) (names : List Bytes) : Tx := names.foldl (fun t n => removeOwner t n c) t
+
+def removeConn (c : ConnId) (b : Bus) : Bus := { b with conns := b.conns.filter (·.id != c) }
+
+def notTo (c : ConnId) : Out → Bool
+  | .deliver to _ => to != c
+  | .opaque to _ => to != c
+  | .close _ => true
+
+/-- `bus_connection_disconnected`: rules go first, then every owned name from the most recently
+    joined back to the unique name (one transaction each), then the pending replies -/
+def disconnectTx (b : Bus) (c : ConnId) (x : Conn) : Tx :=
+  dropPending ((releaseAll { bus := clearRules (gcRules b x) c } c x.owned.reverse).mapBus (removeConn c)) c
+
+def disconnect (b : Bus) (c : ConnId) : Tx :=
+  match b.conn? c with
+  | none => { bus := b }
+  | some x =>
+    -- the vanished connection itself is no longer connected: nothing is queued for it
+    { bus := (disconnectTx b c x).bus, out := (disconnectTx b c x).out.filter (notTo c),
+      mon := (disconnectTx b c x).mon.filter (notTo c) }
+
 /-! ### driver methods -/
 
 def reply (t : Tx) (c : ConnId) (call : Msg) (tys : List Ty) (body : List Val) : Tx :=
@@ -416,6 +492,38 @@ def removeRule (rs : List MatchRule) (r : MatchRule) : Option (List MatchRule) :
   | some i => some (rs.reverse.eraseIdx i).reverse
   | none => none
 
+/-- the `as` argument of BecomeMonitor; an empty array stands for one empty (match-all) rule -/
+def monitorTexts (m : Msg) : List Bytes :=
+  match m.body with
+  | (.array _ vs) :: _ =>
+    let ts := vs.filterMap fun v => match v with | .str _ s => some s | _ => none
+    if ts.isEmpty then [[]] else ts
+  | _ => [[]]
+
+/-- every rule must parse; monitors always eavesdrop -/
+def parseMonitorRules : List Bytes → Except Err (List MatchRule)
+  | [] => .ok []
+  | txt :: rest =>
+    match parseRule txt with
+    | .ok r =>
+      match parseMonitorRules rest with
+      | .ok rs => .ok ({ r with eavesdrop := true } :: rs)
+      | .error e => .error e
+    | .tooLong => .error .limitsExceeded
+    | .invalid => .error .matchRuleInvalid
+
+/-- `bus_connection_be_monitor`: install the filter, give up every name (oldest first), drop the
+    ordinary match rules, join the monitor list. (Its pending replies are forgotten too, but the
+    NoReply errors that costs its callers are sent by a zero-interval timeout, i.e. after everything
+    this dispatch queues: see `sweepMonitors`.) -/
+def beMonitor (t : Tx) (c : ConnId) (rules : List MatchRule) : Tx :=
+  match t.bus.conn? c with
+  | none => t
+  | some x =>
+    let t := t.mapBus fun b => b.updConn c fun y => { y with monitorRules := rules }
+    let t := x.owned.foldl (fun t n => removeOwner t n c) t
+    t.mapBus fun b => (gcRules b { x with monitorRules := rules }).updConn c fun y => { y with rules := [], monitor := true }
+
 def runMethod (t : Tx) (c : ConnId) (m : Msg) (which : Method) : Tx × Option Err :=
   match which with
   | .hello => hello t c m
@@ -472,8 +580,17 @@ def runMethod (t : Tx) (c : ConnId) (m : Msg) (which : Method) : Tx × Option Er
       | none => (reply t c m [] [], some .matchRuleNotFound)
     | .tooLong => (t, some .limitsExceeded)
     | .invalid => (t, some .matchRuleInvalid)
-  | .becomeMonitor => (t, some .failed)    -- replaced in Bus.Monitor
-  | .opaqueM => (t.emit (.opaque c m.serial), none)
+  | .becomeMonitor =>
+    if arg1Nat m != 0 then (t, some .invalidArgs)
+    else
+      match parseMonitorRules (monitorTexts m) with
+      | .error e => (t, some e)
+      | .ok rules => (beMonitor (reply t c m [] []) c rules, none)
+  | .opaqueM =>
+    -- a reply whose body is not modelled: monitors are shown it on the strength of its header
+    let t := (captureTargets t.bus none (some c) (stampDriver t.bus c (mkReturn m [] []))).foldl
+      (fun (t : Tx) r => { t with mon := t.mon ++ [.opaque r m.serial] }) t
+    (t.emit (.opaque c m.serial), none)
 
 def bodySig (m : Msg) : Bytes := printList m.bodyTypes
 
@@ -492,56 +609,6 @@ def driverHandle (tbl : List IfaceRow) (t : Tx) (c : ConnId) (m : Msg) : Tx × O
       else if bodySig m != row.inSig then (t, some .invalidArgs)
       else runMethod t c m (methodOf i row.name)
 
-/-! ### disconnect -/
-
-def involves (c : ConnId) (p : Pending) : Bool := p.caller == c || p.callee == c
-
-/-- a stand-in for the call a pending entry remembers (only its serial matters to the error reply) -/
-def fakeCall (serial : Nat) : Msg :=
-  { endian := .little, mtype := 1, flags := 0, version := 1, serial := serial, fields := [], bodyTypes := [], body := [] }
-
-def noReplyTo (c : ConnId) (t : Tx) (p : Pending) : Tx :=
-  if p.callee == c && p.caller != c then sendError t p.caller (fakeCall p.serial) .noReply else t
-
-/-- `bus_connection_drop_pending_replies`: callers waiting on the vanished callee get NoReply;
-    entries where it was the caller are forgotten -/
-def dropPending (t : Tx) (c : ConnId) : Tx :=
-  (t.bus.pending.filter (involves c)).foldl (noReplyTo c)
-    (t.setPending (t.bus.pending.filter fun p => !involves c p))
-
-/-- `bus_matchmaker_disconnected` runs only when the vanishing connection has rules of its own;
-    it also drops other connections' rules that name the vanishing unique name as sender or
-    destination (the name is never reused, so they could never match again) -/
-def gcRules (b : Bus) (x : Conn) : Bus :=
-  if x.rules.isEmpty then b else
-    match x.name with
-    | none => b
-    | some nm => { b with conns := b.conns.map fun y =>
-        if y.id == x.id then y else { y with rules := y.rules.filter fun r => !(r.sender == some nm || r.dest == some nm) } }
-
-def clearRules (b : Bus) (c : ConnId) : Bus := b.updConn c fun x => { x with rules := [], monitorRules := [] }
-
-def releaseAll (t : Tx) (c : ConnId) (names : List Bytes) : Tx := names.foldl (fun t n => removeOwner t n c) t
-
-def removeConn (c : ConnId) (b : Bus) : Bus := { b with conns := b.conns.filter (·.id != c) }
-
-def notTo (c : ConnId) : Out → Bool
-  | .deliver to _ => to != c
-  | .opaque to _ => to != c
-  | .close _ => true
-
-/-- `bus_connection_disconnected`: rules go first, then every owned name from the most recently
-    joined back to the unique name (one transaction each), then the pending replies -/
-def disconnectTx (b : Bus) (c : ConnId) (x : Conn) : Tx :=
-  dropPending ((releaseAll { bus := clearRules (gcRules b x) c } c x.owned.reverse).mapBus (removeConn c)) c
-
-def disconnect (b : Bus) (c : ConnId) : Bus × List Out :=
-  match b.conn? c with
-  | none => (b, [])
-  | some x =>
-    -- the vanished connection itself is no longer connected: nothing is queued for it
-    ((disconnectTx b c x).bus, (disconnectTx b c x).out.filter (notTo c))
-
 /-! ### `bus_dispatch` -/
 
 inductive Ev
@@ -556,14 +623,20 @@ def PEER_IFACE : Bytes := ([0x6f,0x72,0x67,0x2e,0x66,0x72,0x65,0x65,0x64,0x65,0x
 def PING : Bytes := ([0x50,0x69,0x6e,0x67] : Bytes)
 def GET_MACHINE_ID : Bytes := ([0x47,0x65,0x74,0x4d,0x61,0x63,0x68,0x69,0x6e,0x65,0x49,0x64] : Bytes)
 
-/-- the reply libdbus itself gives to a method call that has no destination (the bus leaves it
-    to the connection layer): no sender field, and addressed to whatever sender the caller wrote into
-    its own message (see known finding F14) -/
+/-- the replies libdbus itself gives on the daemon's connections. A message of any type without
+    destination whose interface is org.freedesktop.DBus.Peer never reaches `bus_dispatch`: the
+    connection's built-in peer filter answers it (Ping, GetMachineId) or bounces it with
+    UnknownMethod. The reply has no sender field and is addressed to whatever SENDER the caller wrote
+    into its own message (known finding F14). -/
+def peerFilterReply (m : Msg) : Msg :=
+  if m.mtype == 1 && m.member == some PING then mkReturn m [] []
+  else if m.mtype == 1 && m.member == some GET_MACHINE_ID then mkReturn m [tStr] [sStr []]
+  else mkError m .unknownMethod
+
+/-- what libdbus answers to a message that `bus_dispatch` declines (no destination, not a signal):
+    UnknownMethod for a method call, nothing otherwise -/
 def builtinReply (m : Msg) : List Msg :=
-  if m.mtype != 1 then []
-  else if m.iface == some PEER_IFACE && m.member == some PING then [mkReturn m [] []]
-  else if m.iface == some PEER_IFACE && m.member == some GET_MACHINE_ID then [mkReturn m [tStr] [sStr []]]
-  else [mkError m .unknownMethod]
+  if m.mtype != 1 then [] else [mkError m .unknownMethod]
 
 /-- the header as the bus takes it in: unknown fields and CONTAINER_INSTANCE dropped -/
 def strip (m0 : Msg) : Msg :=
@@ -572,7 +645,7 @@ def strip (m0 : Msg) : Msg :=
 def senderNameOf (b : Bus) (c : ConnId) : Bytes := match b.nameOf c with | some n => n | none => NOT_ACTIVE
 
 /-- a message addressed to org.freedesktop.DBus -/
-def toDriver (tbl : List IfaceRow) (t : Tx) (c : ConnId) (m : Msg) : Tx × Option Err :=
+def toDriverCore (tbl : List IfaceRow) (t : Tx) (c : ConnId) (m : Msg) : Tx × Option Err :=
   let (p, e) := checkPolicy t.bus (some c) none none m
   let t := t.setPending p
   match e with
@@ -585,60 +658,72 @@ def toDriver (tbl : List IfaceRow) (t : Tx) (c : ConnId) (m : Msg) : Tx × Optio
       -- the sender with the freshly minted name by now)
       dispatchMatches t (some c) none (m.setSender (senderNameOf t.bus c))
 
+/-- monitors are shown the message first (which of them is decided before the driver acts), but what
+    they are shown is the one shared message object, whose sender Hello re-stamps before anything is
+    written out -/
+def toDriver (tbl : List IfaceRow) (t0 : Tx) (c : ConnId) (m : Msg) : Tx × Option Err :=
+  ({ (toDriverCore tbl { t0 with mon := [] } c m).1 with
+      mon := t0.mon ++ (captureTargets t0.bus (some c) none m).map
+                (Out.deliver · (m.setSender (senderNameOf (toDriverCore tbl { t0 with mon := [] } c m).1.bus c))) ++
+             (toDriverCore tbl { t0 with mon := [] } c m).1.mon },
+   (toDriverCore tbl { t0 with mon := [] } c m).2)
+
 /-- a message from an active connection to a peer, or a broadcast -/
 def route (t : Tx) (c : ConnId) (m : Msg) : Tx × Option Err :=
   match m.dest with
   | some d =>
     match t.bus.primary? d with
-    | none => (t, some (if m.noAutoStart then .nameHasNoOwner else .serviceUnknown))
-    | some a => dispatchMatches t (some c) (some a) m
-  | none => dispatchMatches t (some c) none m
+    | none => (capture t (some c) none m, some (if m.noAutoStart then .nameHasNoOwner else .serviceUnknown))
+    | some a => dispatchMatches (capture t (some c) (some a) m) (some c) (some a) m
+  | none => dispatchMatches (capture t (some c) none m) (some c) none m
+
+def sweepMonitors (t : Tx) : Tx :=
+  (t.bus.conns.filter (·.monitor)).foldl (fun t x => dropPending t x.id) t
 
 /-- the end of `bus_dispatch`: an error becomes an error reply to the sender -/
-def finish (r : Tx × Option Err) (c : ConnId) (m : Msg) : Bus × List Out :=
+def finish (r : Tx × Option Err) (c : ConnId) (m : Msg) : Tx :=
   match r with
-  | (t, some e) => let t := sendError t c m e; (t.bus, t.out)
-  | (t, none) => (t.bus, t.out)
+  | (t, some e) => sendError t c m e
+  | (t, none) => t
 
-def dropConn (b : Bus) (c : ConnId) : Bus × List Out :=
-  let (b, out) := disconnect b c
-  (b, out ++ [.close c])
+def dropConn (b : Bus) (c : ConnId) : Tx :=
+  { disconnect b c with out := (disconnect b c).out ++ [.close c] }
 
-def dispatch (tbl : List IfaceRow) (b : Bus) (c : ConnId) (m0 : Msg) : Bus × List Out :=
+def dispatch (tbl : List IfaceRow) (b : Bus) (c : ConnId) (m0 : Msg) : Tx :=
   match b.conn? c with
-  | none => (b, [])
+  | none => { bus := b }
   | some x =>
-    if x.monitor then dropConn b c
+    let m := strip m0
+    if m.dest.isNone && m.iface == some PEER_IFACE then { bus := b, out := [Out.deliver c (peerFilterReply m)] }
+    else if x.monitor then dropConn b c
+    else if m.dest.isNone && m.mtype != 4 then
+      -- left to the connection layer; its reply is made from the message as received (sender
+      -- not yet stamped)
+      { bus := b, out := (builtinReply m).map (Out.deliver c) }
     else
-      let m := strip m0
-      if m.dest.isNone && m.mtype != 4 then
-        -- left to the connection layer; its reply is made from the message as received (sender
-        -- not yet stamped)
-        (b, (builtinReply m).map (Out.deliver c))
-      else
-        let m := m.setSender (senderNameOf b c)
-        if m.dest == some BUS_NAME then finish (toDriver tbl { bus := b } c m) c m
-        else if x.name.isNone then dropConn b c
-        else finish (route { bus := b } c m) c m
+      let m := m.setSender (senderNameOf b c)
+      if m.dest == some BUS_NAME then sweepMonitors (finish (toDriver tbl { bus := b } c m) c m)
+      else if x.name.isNone then
+        -- monitors are shown the message, then the connection is dropped
+        { dropConn b c with mon := (capture { bus := b } (some c) none m).mon ++ (dropConn b c).mon }
+      else finish (route { bus := b } c m) c m
 
 /-- `bus_pending_reply_expired` for every entry (in list order; the real order is that of the
     deadlines): the caller gets NoReply, the slot goes -/
-def expireAll (b : Bus) : Bus × List Out :=
-  let t := b.pending.foldl (fun t p => sendError t p.caller (fakeCall p.serial) .noReply) ({ bus := { b with pending := [] } } : Tx)
-  (t.bus, t.out)
+def expireAll (b : Bus) : Tx :=
+  b.pending.foldl (fun t p => sendError t p.caller (fakeCall p.serial) .noReply) ({ bus := { b with pending := [] } } : Tx)
 
-def step (tbl : List IfaceRow) (b : Bus) : Ev → Bus × List Out
+def step (tbl : List IfaceRow) (b : Bus) : Ev → Tx
   | .connect c uid gids canFd =>
-    if (b.conn? c).isSome then (b, [])
-    else ({ b with conns := b.conns ++ [{ id := c, uid := uid, gids := gids, canFd := canFd }] }, [])
+    if (b.conn? c).isSome then { bus := b }
+    else { bus := { b with conns := b.conns ++ [{ id := c, uid := uid, gids := gids, canFd := canFd }] } }
   | .msg c m => dispatch tbl b c m
-  | .invalid c => if (b.conn? c).isNone then (b, []) else dropConn b c
+  | .invalid c => if (b.conn? c).isNone then { bus := b } else dropConn b c
   | .close c => disconnect b c
   | .timeout => expireAll b
 
 def run (tbl : List IfaceRow) (b : Bus) (evs : List Ev) : Bus × List (List Out) :=
   evs.foldl (fun (acc : Bus × List (List Out)) ev =>
-    let (b', out) := step tbl acc.1 ev
-    (b', acc.2 ++ [out])) (b, [])
+    ((step tbl acc.1 ev).bus, acc.2 ++ [(step tbl acc.1 ev).out])) (b, [])
 
 end Dbus.Model.Bus
